@@ -146,8 +146,15 @@ class CallMixin:
         if isinstance(f, SDyn):
             if f.callable or self.specmode or self.d.contract_assumes('PURE_CHILDREN'):
                 if len(args) != 1:
-                    raise Unsupported('child node call arity')
-                return SDyn(ev(f.t, self.to_val(args[0])))
+                    if kw:
+                        raise Unsupported('child node call arity')
+                    r = apply_fn(len(args))(f.t, *[self.to_val(a) for a in args])
+                else:
+                    r = ev(f.t, self.to_val(args[0]))
+                if not self.specmode:
+                    # a call the code really makes: what it returns exists now, so it is none of the objects constructed later
+                    self.assume(z3.Or(z3.Not(Val.is_VObj(r)), Val.o(r) > self.allocp))
+                return SDyn(r)
             raise Unsupported(f'call of opaque value {f!r}')
         if isinstance(f, SGetter):
             if f.kind == 'attr':
@@ -195,6 +202,11 @@ class CallMixin:
         return env
 
     def call_func(self, fr, f, args, kw, node=None):
+        pc = getattr(self.d.contract, 'pure_callees', None) or {}
+        if self.specmode and f.qual in pc:
+            # assumed pure callee inside a comprehension / specification: the spec function it is assumed to compute
+            sf = pc[f.qual][0]
+            return self.call_spec(fr, getattr(sf, 'sf', sf), args, kw, node)
         # modular: a contract for the callee?
         c = self.d.callee_contract(f.qual)
         if c is not None and f.qual not in self.d.contract.inline and not self.specmode:
@@ -559,6 +571,16 @@ class CallMixin:
             gen = ast.comprehension(target=gen.target.elts[1], iter=gen.iter, ifs=gen.ifs, is_async=0)
             it = it.seq
         seq = self.as_seq(it)
+        pc = getattr(self.d.contract, 'pure_callees', None) or {}
+        if pc and not self.specmode:
+            # a callee assumed pure but allowed to raise: the comprehension as a whole may end with that exception
+            # (for a non-empty sequence); otherwise every call returned and the element expression is the spec function
+            called = {n.func.attr if isinstance(n.func, ast.Attribute) else getattr(n.func, 'id', None) for n in ast.walk(node) if isinstance(n, ast.Call)}
+            for qual, (sf, excs) in sorted(pc.items()):
+                if qual.rsplit('.', 1)[-1].rsplit(':', 1)[-1] in called:
+                    for exc in excs:
+                        if self.branch(z3.And(z3.Bool(self.fresh('compraise')), z3.Length(seq.t) > 0)):
+                            raise PyRaise(exc, getattr(node, 'lineno', None), f'raised by {qual} inside the comprehension')
         if gen.ifs or index_name is not None:
             return self.filter_comprehension(fr, node, gen, seq, kind, index_name)
         # map: r = MAP_k(seq, captured...) with len(r) == len(seq) and r[j] == elt(seq[j]) for all j.
@@ -576,13 +598,29 @@ class CallMixin:
         tnames = {n.id for n in ast.walk(gen.target) if isinstance(n, ast.Name)}
         free = []
         inner = []                             # names bound by comprehensions nested in the element expression
-        for n in ast.walk(node.elt):
+        elt = node.elt
+        pcs = getattr(self.d.contract, 'pure_callees', None) or {}
+        specnames = set()
+        if pcs:
+            # a call of an assumed-pure callee denotes its spec function: self._compile(x) and compiled_of(x) are the same term
+            import copy as _copy0
+            short = {q.rsplit('.', 1)[-1].rsplit(':', 1)[-1]: getattr(sf, 'sf', sf).name for q, (sf, _) in pcs.items()}
+            specnames = set(short.values())
+
+            class _Pure(ast.NodeTransformer):
+                def visit_Call(self, n):
+                    self.generic_visit(n)
+                    if isinstance(n.func, ast.Attribute) and n.func.attr in short and isinstance(n.func.value, ast.Name) and n.func.value.id == 'self':
+                        return ast.Call(func=ast.Name(id=short[n.func.attr], ctx=ast.Load()), args=n.args, keywords=n.keywords)
+                    return n
+            elt = _Pure().visit(_copy0.deepcopy(node.elt))
+        for n in ast.walk(elt):
             if isinstance(n, ast.comprehension):
                 for m in ast.walk(n.target):
                     if isinstance(m, ast.Name) and m.id not in inner:
                         inner.append(m.id)
-        for n in ast.walk(node.elt):          # captured names in order of first occurrence
-            if isinstance(n, ast.Name) and n.id not in tnames and n.id not in free and n.id not in inner:
+        for n in ast.walk(elt):          # captured names in order of first occurrence
+            if isinstance(n, ast.Name) and n.id not in tnames and n.id not in free and n.id not in inner and n.id not in specnames:
                 free.append(n.id)
         r = None
         if isinstance(gen.target, ast.Name) and not (set(inner) & tnames):
@@ -603,7 +641,7 @@ class CallMixin:
                         if n.id in ren:
                             return ast.Name(id=ren[n.id], ctx=n.ctx)
                         return n
-                dumped = ast.dump(_Ren().visit(_copy.deepcopy(node.elt)))
+                dumped = ast.dump(_Ren().visit(_copy.deepcopy(elt)))
                 key = 'MAP_' + _hl.sha1((dumped + kind).encode()).hexdigest()[:10]
                 F = uf(key + f'_{len(caps)}', SeqV, *([Val] * len(caps)), SeqV)
                 r = F(seq.t, *caps)
